@@ -27,6 +27,9 @@ type C12Inc struct {
 	Subscriber []C12Step `json:"subscriber"` // sub / yield steps, run concurrently with the publisher
 	CrashAtOp  int       `json:"crash_at_op"` // the incarnation dies right after (or before) its m-th store operation (-1: clean stop)
 	CrashBefore bool     `json:"crash_before,omitempty"`
+	// SubFirst: the publisher starts only when the subscriber's steps are done (the service catches up, then
+	// takes traffic) - no publish overlaps a SubscribeWithReplay call in this incarnation
+	SubFirst bool `json:"sub_first,omitempty"`
 }
 
 type C12Fault struct {
@@ -95,6 +98,7 @@ func genC12(rt *rapid.T) core.Scenario {
 				inc.Subscriber = append(inc.Subscriber, C12Step{Kind: "sub", Sub: w})
 			}
 		}
+		inc.SubFirst = rapid.IntRange(0, 2).Draw(rt, "subFirst") == 2
 		if rapid.IntRange(0, 1).Draw(rt, "crashes") == 1 {
 			inc.CrashAtOp = rapid.IntRange(0, 25).Draw(rt, "crashAtOp")
 			inc.CrashBefore = rapid.IntRange(0, 3).Draw(rt, "crashBefore") == 3
@@ -283,7 +287,7 @@ func (sc *C12Scenario) Execute(t *testing.T) *core.Outcome {
 				bus.Wait()
 				return
 			}
-			pub := simrt.Spawn(fmt.Sprintf("inc%d-publisher", n), n, func() {
+			publisher := func() {
 				for _, st := range inc.Publisher {
 					if st.Kind == "yield" {
 						simrt.Yield(siteClient)
@@ -303,7 +307,11 @@ func (sc *C12Scenario) Execute(t *testing.T) *core.Outcome {
 					pubSpan[id] = span{a, rec.Add("publish-ret", id, 0, "")}
 				}
 				bus.Wait()
-			})
+			}
+			var pub *simrt.Task
+			if !inc.SubFirst {
+				pub = simrt.Spawn(fmt.Sprintf("inc%d-publisher", n), n, publisher)
+			}
 			sub := simrt.Spawn(fmt.Sprintf("inc%d-subscriber", n), n, func() {
 				for _, st := range inc.Subscriber {
 					if st.Kind == "yield" {
@@ -313,6 +321,13 @@ func (sc *C12Scenario) Execute(t *testing.T) *core.Outcome {
 					subscribe(st.Sub)
 				}
 			})
+			if inc.SubFirst {
+				simrt.Join(sub)
+				if crashed[n] {
+					return
+				}
+				pub = simrt.Spawn(fmt.Sprintf("inc%d-publisher", n), n, publisher)
+			}
 			simrt.Join(pub, sub)
 		}
 		for n, inc := range sc.Incs {
@@ -546,6 +561,56 @@ func keys(m map[int]bool) []int {
 	return k
 }
 
-var propC12 = &core.Property{ID: "C12", Gen: genC12, New: func() core.Scenario { return &C12Scenario{} }}
+// c12Grid: restart histories built by hand. Generation 1 subscribes and publishes, generation 2 only writes
+// (the subscriber is down), generation 3 is a fresh bus that catches up first and then publishes - its first
+// append being the one that fails, loses its acknowledgement, or neither; a further generation (the final
+// one every run has) resumes and checks. Stores, a separate offset store, and 1-2 events per phase vary.
+func c12Grid(tier string, yield func(core.Scenario)) string {
+	n := 0
+	stores := []StoreCfg{{Kind: "mem"}, {Kind: "sqlite"}}
+	pubs := func(k int) []C12Step {
+		var l []C12Step
+		for i := 0; i < k; i++ {
+			l = append(l, C12Step{Kind: "pub", Shape: 0})
+		}
+		return l
+	}
+	for _, st := range stores {
+		for _, sep := range []int{0, 1} {
+			for a := 1; a <= 2; a++ {
+				for b := 1; b <= 2; b++ {
+					for c := 1; c <= 2; c++ {
+						for f := 0; f < 5; f++ {
+							sc := &C12Scenario{Store: st, Subs: []int{0, 0}, SepSub: sep}
+							sub := []C12Step{{Kind: "sub", Sub: 0}}
+							sub3 := sub
+							if f == 4 {
+								sub3 = []C12Step{{Kind: "sub", Sub: 0}, {Kind: "sub", Sub: 1}} // a second id joins on the fresh bus
+							}
+							sc.Incs = []C12Inc{
+								{Publisher: pubs(a), Subscriber: sub, CrashAtOp: -1, SubFirst: true},
+								{Publisher: pubs(b), CrashAtOp: -1},
+								{Publisher: pubs(c), Subscriber: sub3, CrashAtOp: -1, SubFirst: true},
+							}
+							switch f {
+							case 1, 4:
+								sc.Fault = &C12Fault{Op: "append", K: a + b}
+							case 2:
+								sc.Fault = &C12Fault{Op: "append", K: a + b, Lost: true}
+							case 3:
+								sc.Fault = &C12Fault{Op: "append", K: a + b + c - 1}
+							}
+							n++
+							yield(sc)
+						}
+					}
+				}
+			}
+		}
+	}
+	return fmt.Sprintf("%d explicitly constructed restart histories (subscribe+publish, writer-only generation, fresh bus that catches up and whose first or last append fails or loses its acknowledgement, resume)", n)
+}
+
+var propC12 = &core.Property{ID: "C12", Gen: genC12, New: func() core.Scenario { return &C12Scenario{} }, Explicit: c12Grid}
 
 func TestC12(t *testing.T) { core.RunProperty(t, propC12) }
